@@ -621,6 +621,24 @@ def decide_with(prop, tier, seed, a, rundir, woven, t0, forced, round_):
         else:
             print("VIOLATION property=%s replay=%s no-failing-input-found" % (prop, rp))
         return 1
+    other_unknown = [f for f in other_fail if not any(match_known(f, known, p) for p in (f["tags"] or [prop]))]
+    if other_unknown:
+        # Modular proofs: every clause of this property was proved *assuming* the contracts of the functions it
+        # calls.  An obligation of another property fails on this tree, so one of those contracts may be false and
+        # nothing is counted as proved for this property either.  It is not reported as a violation of THIS property
+        # (the failing clause is not part of its statement); the bounded stand-in decides what it can.
+        f0 = other_unknown[0]
+        why = "a contract outside this property's clauses fails on this tree (%s %s %s, tagged %s): the modular proof of %s may rely on it" % (
+            f0["unit"], f0["kind"], (f0.get("clause") or "").split("::")[-1], ",".join(f0["tags"]), prop)
+        print("DEPENDS-ON-FAILED-CONTRACT property=%s unit=%s kind=%s clause=%s tags=%s" % (prop, f0["unit"], f0["kind"], f0.get("clause"), ",".join(f0["tags"])))
+        ws = witness_search(prop, a.repo, rundir, seed, quick=(tier != "thorough")) if prop in WITNESS_PROPS else {"cases": 0, "failures": [], "error": "no family"}
+        if ws["failures"]:
+            rp = write_replay(prop, [], cmd, diags, ws, note=why + "; the bounded differential check found a failing input on the real code")
+            w = ws["failures"][0]
+            print("FAILING-INPUT property=%s ptr=%s expected: %s actual: %s" % (prop, w["ptr"], w["expected"][:160], w["actual"][:200]))
+            print("VIOLATION property=%s replay=%s" % (prop, rp))
+            return 1
+        return bounded_only(prop, tier, seed, why, ws, info, t0, cmd=cmd)
     canary = None
     mutants = None
     if tier == "thorough":
